@@ -62,6 +62,26 @@ DESC = {
  'C16-6': '(round 3) `InDetectOrder` never compares the last entry, DetectHardware sorts only when it says unsorted (only the last-registered driver out of place)',
  'C19-5': '(round 3, dependency) constructor computes bytesPerPixel as `bpp >> 3` (15 bpp: 1 instead of 2)',
  'C19-6': '(round 3, dependency) `SetFont` rounds widthInChars up (width not a multiple of the glyph width: phantom last column)',
+ 'C02-5': '(round 3, dependency) `multiboot.MemoryEntryType` narrowed to uint8 (found independently of C01-5)',
+ 'C02-6': '(round 3) kernel-hop test `>=` -> `>` on `lastAllocFrame` (kernel exactly one frame into its region)',
+ 'C05-5': '(round 3, dependency) `Map` clears 512 bytes instead of a page of a new table (dirty frames); own check: tie only, reported concretely by C04 (`c04-new-table-not-empty`)',
+ 'C05-6': '(round 3) `flags` hoisted out of the section visitor: RW sticks after the first writable section',
+ 'C07-5': '(round 3, dependency) pmm `setupPoolBitmaps` maps `(bytes+PageSize)>>shift` pages (bookkeeping an exact page multiple); own check: pin only, reported concretely by C03 (`c03-state-outside-reserved-block`)',
+ 'C07-6': '(round 3, dependency) `sysAlloc` wrap check rewritten as a shift idiom that can never fire (size in the last page before 2^64)',
+ 'C10-5': '(round 3, dependency) `findTagByType` bounded by totalSize with `>=` for `>` (queried tag directly before the terminator, size a multiple of 8)',
+ 'C10-6': '(round 3) string-table section header read hoisted out of the loop (EMPTY section table directly before the end of the block)',
+ 'C13-5': '(round 3) `^NAME` searched upward through the enclosing scopes',
+ 'C13-6': '(round 3, dependency) parser `attachSiblingsAsArgs` detaches with the first sibling\'s owner (args crossing to the parent\'s siblings); C13\'s own check green - not an ObjectTree defect -, reported by C12 (`c12-tree-links`)',
+ 'C14-5': '(round 3, dependency) kfmt `%s` ranges over runes (signature byte >= 0x80 in a mismatch report)',
+ 'C14-6': '(round 3) checksum word-at-a-time with a C-style tail switch (lengths 2 or 3 mod 4)',
+ 'C15-5': '(round 3) sign handling negates in place (`MinInt64` prints as -0)',
+ 'C15-6': '(round 3, dependency) ring-buffer `Write` fast path leaves `wIndex = 2048` (early print after a sink was detached); C15\'s own check green (formatter unchanged), reported by C16 (`c16-ring-panic`)',
+ 'C17-5': '(round 3, dependency) vesa `SetFont` derives the column count from the pitch; C17\'s own check green (terminal vs console-reported size), reported by C19 (`c19-vesa-grid-size`)',
+ 'C17-6': '(round 3) `lf` scrolls the whole buffer instead of the viewport lines (scrollback > 0, 105 line feeds on 80x25)',
+ 'C18-5': '(round 3, dependency) vesa `DriverInit` sizes the framebuffer as width*height*bpp (padded pitch)',
+ 'C18-6': '(round 3) `lf` blanks `cursorY-1` instead of the last viewport line (viewportY > 0)',
+ 'C20-5': '(round 3) `parser.ParseDir` maps ranged over (several annotated files in one directory, repeated builds)',
+ 'C20-6': '(round 3, dependency) walk callback skips non-regular files: symlinked .go files vanish from the table',
 }
 def short(vs):
     out = []
